@@ -457,7 +457,6 @@ struct EvalChecks {
             for (size_t j = 0; j < h.size(); j++) {
                 const InitSpec &s = M[h[j]];
                 threw = false;
-                c.eval();
                 try {
                     TR::init(reused, s.inputs, s.outputs, s.variant);
                 } catch (SymEngineException &ex) {
@@ -467,8 +466,6 @@ struct EvalChecks {
                         nfail++;
                 }
             }
-            if (h.size() > 1)
-                c.nontrivial();
             const InitSpec &L = M[h.back()];
             V fresh;
             bool fthrew = false;
@@ -514,6 +511,11 @@ struct EvalChecks {
                 c.sample("{\"evaluator\":" + jstr(TR::tname()) + ",\"history\":" + jstr(hname(i)) + ",\"result\":\"bit-identical to fresh visitor\"}");
         };
         cs.body = [&](long long i, Ctx &c) {
+            // counted here (not in the possibly crashing child) so that the totals are deterministic
+            size_t len = decode(i).size();
+            c.eval(len);
+            if (len > 1)
+                c.nontrivial();
             if (!TR::fragile()) {
                 work(i, c);
                 return;
